@@ -22,6 +22,7 @@ type cs struct {
 	PType     string `json:"ptype"`
 	Lua       bool   `json:"lua"`
 	Range     string `json:"range"`
+	Open      string `json:"open"`
 }
 
 type rule struct {
@@ -89,18 +90,22 @@ func runCase(base string, i int, c cs) (rec, error) {
 	case "invalid_impl":
 		ann["oauth"] = "nosuch_impl"
 	}
+	pub := "/pub"
+	if c.Open == "before" {
+		pub = "/aaa"
+	}
 	p.Apply(kobj.Ingress("d", "prot", 1, ann, nil, []kobj.Rule{{Host: "a.local", Paths: paths}}, nil, nil))
 	p.Apply(kobj.Ingress("d", "pub", 2, map[string]string{"ssl-redirect": "false"}, nil,
-		[]kobj.Rule{{Host: "a.local", Paths: []kobj.Path{{Path: "/pub", Svc: "app", Port: "8080"}}}}, nil, nil))
+		[]kobj.Rule{{Host: "a.local", Paths: []kobj.Path{{Path: pub, Svc: "app", Port: "8080"}}}}, nil, nil))
 	if _, err := p.ReconcilePending(false); err != nil {
 		return r, err
 	}
 	protected := c.URL != "none" || c.OAuth != "none"
 	r.Rules = []rule{
 		{ID: "app", P: cfgnf.Chars("/app"), Ty: c.PType, Protected: protected},
-		{ID: "pub", P: cfgnf.Chars("/pub"), Ty: "begin", Protected: false},
+		{ID: "pub", P: cfgnf.Chars(pub), Ty: "begin", Protected: false},
 	}
-	for _, q := range []string{"/app", "/app/x", "/appx", "/App", "/pub", "/pub/x", "/other"} {
+	for _, q := range []string{"/app", "/app/x", "/appx", "/App", pub, pub + "/x", "/other"} {
 		r.Reqs = append(r.Reqs, cfgnf.Chars(q))
 	}
 	raw, err := cfgnf.Load(w.Opt.CfgDir(), w.Opt.Dir)
